@@ -69,6 +69,83 @@ fn run(ctx: &mut Ctx) {
     ctx.bound("space", format!("buffer lengths 0..=96 (thorough: 0..=288), 8192-{r}..=8192+{r}, 16384-16..=16384+16; no magic, or first magic at every offset within {p} bytes of the buffer start / of offset 8192 / of the buffer end; stored length word in {{0,8,16,24,0x10010,L-i-8,L-i-1,L-i,L-i+1,0xFFFFFFFF}}; a second magic {{none, 8 bytes earlier, 5 bytes earlier, 16 bytes later}}; zero filler; buffer 8-aligned, flush against a PROT_NONE guard page when its length is a multiple of 8 and otherwise at most 7 bytes before it, those slack bytes varied between two fills", r = if quick { 40 } else { 136 }, p = if quick { 24 } else { 72 }));
     let arena = Arena::new(6);
     scan_automaton(ctx, &arena);
+    // foreign and structured contents: headers of other byte orders / other boot protocols in front of (or instead
+    // of) a real header, and real headers with a tag chain whose stored length goes on behind the end tag
+    ctx.bound("foreign_and_structured", "buffers holding, at offset 0 / 8 / 5, a big-endian Multiboot2 header (both architectures), a Multiboot1 header, the boot-loader magic 0x36D76289, each alone and followed by a real header; real headers with tags [entry][end] and a stored length that ends at, 8, 16 or 24 bytes behind the end tag, or cuts it");
+    {
+        let be = |arch: u32, len: u32| -> Vec<u8> {
+            let mut v = vec![];
+            for w in [0xE852_50D6u32, arch, len, 0u32.wrapping_sub(0xE852_50D6).wrapping_sub(arch).wrapping_sub(len)] {
+                v.extend_from_slice(&w.to_be_bytes());
+            }
+            v
+        };
+        let le_hdr = |arch: u32, extra: usize, cut: usize| -> Vec<u8> {
+            // [16-byte header][entry address tag 12 -> 16][end tag 8][extra filler]; stored length = everything - cut
+            let mut v = vec![0u8; 16];
+            v.extend_from_slice(&[3, 0, 0, 0, 12, 0, 0, 0, 0x00, 0x00, 0x10, 0x00, 0, 0, 0, 0]);
+            v.extend_from_slice(&[0, 0, 0, 0, 8, 0, 0, 0]);
+            v.extend((0..extra).map(|i| 0x21 + (i as u8 % 64) * 2 + 1));
+            let len = (v.len() - cut) as u32;
+            v[0..4].copy_from_slice(&MAGIC_LE);
+            wr32(&mut v, 4, arch);
+            wr32(&mut v, 8, len);
+            wr32(&mut v, 12, 0u32.wrapping_sub(0xE852_50D6).wrapping_sub(arch).wrapping_sub(len));
+            v
+        };
+        let mut foreign: Vec<(&'static str, Vec<u8>)> = vec![
+            ("big-endian header, i386", be(0, 16)),
+            ("big-endian header, MIPS32", be(4, 16)),
+            ("big-endian header, MIPS32, length 24", { let mut v = be(4, 24); v.extend_from_slice(&[0, 0, 0, 0, 0, 0, 0, 8]); v }),
+            ("Multiboot1 header", { let mut v = vec![]; for w in [0x1BAD_B002u32, 3, 0u32.wrapping_sub(0x1BAD_B002 + 3)] { v.extend_from_slice(&w.to_le_bytes()); } v.extend_from_slice(&[0; 4]); v }),
+            ("boot-loader magic", { let mut v = 0x36D7_6289u32.to_le_bytes().to_vec(); v.extend_from_slice(&[4, 0, 0, 0, 16, 0, 0, 0, 0, 0, 0, 0]); v }),
+        ];
+        foreign.push(("nothing", vec![]));
+        let mut cases: Vec<(String, Vec<u8>)> = vec![];
+        for (name, f) in &foreign {
+            for at in [0usize, 8, 5] {
+                for real in 0..3 {
+                    let mut b = vec![0u8; at];
+                    b.extend_from_slice(f);
+                    while b.len() % 8 != 0 {
+                        b.push(0);
+                    }
+                    match real {
+                        1 => b.extend_from_slice(&le_hdr(0, 0, 0)),
+                        2 => {
+                            b.extend_from_slice(&[0; 8]);
+                            b.extend_from_slice(&le_hdr(4, 8, 0));
+                        }
+                        _ => {}
+                    }
+                    b.extend_from_slice(&[0; 16]);
+                    cases.push((format!("{} at offset {}, {}", name, at, ["no real header", "real header behind it", "real MIPS32 header 8 bytes further"][real]), b));
+                }
+            }
+        }
+        for arch in [0u32, 4] {
+            for extra in [0usize, 8, 16, 24] {
+                for cut in [0usize, 8, 16] {
+                    if cut > extra + 8 {
+                        continue;
+                    }
+                    for at in [0usize, 8, 24] {
+                        let mut b = vec![0u8; at];
+                        b.extend_from_slice(&le_hdr(arch, extra, cut));
+                        cases.push((format!("header with tags, arch {}, {} bytes behind the end tag, stored length {} bytes short, at offset {}", arch, extra, cut, at), b));
+                    }
+                }
+            }
+        }
+        for (what, img) in cases {
+            let describe = || J::obj().set("part", "foreign_and_structured").set("what", what.as_str()).set("buffer", J::hex(&img));
+            ctx.leaf(describe, |ctx| {
+                ctx.state(hash::hash_bytes(&img));
+                ctx.nontrivial();
+                exec_image(ctx, &arena, &img);
+            });
+        }
+    }
     // large buffers and large stored lengths (the specification's 32 KiB header limit, 16-bit and 20-bit boundaries)
     let bigl: Vec<usize> = if quick { vec![32768 + 16, 65536 + 8, 1 << 20] } else { vec![32768 - 8, 32768, 32768 + 16, 65536 - 8, 65536, 65536 + 8, 65543, 1 << 20, (1 << 20) + 24] };
     ctx.bound("large_buffers", format!("buffer lengths {:?}; magic at offset {{0, 8, 4096, 8184}}; stored length in {{L-i, L-i-8, L-i+8, 32760, 32768, 32776, 65528, 65536, 65544, 16}}", bigl));
